@@ -1,6 +1,7 @@
 package rules
 
 import (
+	"os"
 	"fmt"
 	"go/ast"
 	"go/token"
@@ -1781,6 +1782,114 @@ func init() {
 			out := scanResliceGrow(c)
 			for _, o := range control(c, "RESLICEGROW", scanResliceGrow, "(fxStack).Grow") {
 				out = append(out, withProps(o, "C09"))
+			}
+			return out
+		}})
+}
+
+// PARAMMUT — parameter objects are not written through.
+//
+// The `…Parameters` value an evaluator holds (minimax/mod1 polynomials, DFT matrices literals, scheme parameters) is
+// shared: with every evaluator built from the same parameters, with shallow copies, with the caller. A method that
+// scales the coefficients of `evm.Mod1Poly` in place — through a struct copy whose slices still point at the shared
+// coefficients — makes the next evaluation, on this or on another evaluator, start from the scaled polynomial.
+//
+// Rule: no method (constructors, decoders and the parameter types' own methods excepted) has a write site that reaches,
+// through a pointer, slice or map, storage rooted at a field of its receiver whose type is named …Parameters… (write
+// sites as in IMMUT/SHARED: assignments through, in-place big-number and polynomial methods, ring-operation and
+// complex-arithmetic destinations; struct copies and local views resolved).
+func scanParamMut(c *core.Ctx) []ob {
+	var out []ob
+	n := 0
+	c.FuncDecls(func(pk *packages.Package, file *ast.File, fd *ast.FuncDecl) {
+		if fd.Body == nil || fd.Recv == nil || fileIsTestSupport(c.Program, fd.Pos()) || inExamples(pk) {
+			return
+		}
+		nm := fd.Name.Name
+		if isCtorName(nm) || copyCtorNames[nm] || nm == "ReadFrom" || strings.HasPrefix(nm, "Unmarshal") || strings.HasPrefix(nm, "Set") {
+			return
+		}
+		info := pk.TypesInfo
+		named, _ := core.RecvNamed(info, fd)
+		recv := recvObj(info, fd)
+		if named == nil || recv == nil {
+			return
+		}
+		st, _ := named.Underlying().(*types.Struct)
+		if st == nil || strings.Contains(named.Obj().Name(), "Parameters") || strings.Contains(named.Obj().Name(), "Literal") {
+			return
+		}
+		paramField := map[string]bool{}
+		for i := 0; i < st.NumFields(); i++ {
+			if tn := namedOf(st.Field(i).Type()); tn != nil && strings.Contains(tn.Obj().Name(), "Parameters") {
+				paramField[st.Field(i).Name()] = true
+			}
+		}
+		if len(paramField) == 0 {
+			return
+		}
+		n++
+		fkey := core.FuncKey(pk, fd)
+		aliases := localAliases(info, fd)
+		var bad *writeSite
+		badField := ""
+		rd := reachingDefs(info, fd)
+		for _, w := range collectWrites(info, fd.Body) {
+			w := w
+			// flow-sensitive for the local the write goes through: only the definitions that reach this write
+			al := aliases
+			if ri := rootIdent(w.target); ri != nil {
+				if o := info.Uses[ri]; o != nil && o != types.Object(recv) && len(aliases[o]) >= 1 {
+					rhs, _, ok := rd.defsAt(ri, o)
+					if os.Getenv("LV_DEBUG_PARAMMUT") != "" {
+						fmt.Fprintf(os.Stderr, "PARAMMUT %s: write %s root %s defsAt ok=%v n=%d\n", fkey, exprString(w.target), ri.Name, ok, len(rhs))
+					}
+					if ok {
+						al = map[types.Object][]ast.Expr{}
+						for k, v := range aliases {
+							al[k] = v
+						}
+						var keep []ast.Expr
+						for _, e := range rhs {
+							if e != nil {
+								keep = append(keep, e)
+							}
+						}
+						al[o] = keep
+					}
+				}
+			}
+			for _, r := range rootsOfWrite(info, w, al) {
+				if r.obj != recv || !paramField[r.field] || !r.deref {
+					continue
+				}
+				if bad == nil {
+					bad, badField = &w, r.field
+				}
+			}
+		}
+		key := "PARAMMUT:" + fkey
+		props := propsForKey(fkey)
+		if bad != nil {
+			out = append(out, withProps(violOb("PARAMMUT", key, c.Rel(bad.pos), fmt.Sprintf("%s writes through %s (%s), storage of the parameters held in the field %s: parameters are shared between evaluators and copies, the next evaluation starts from the modified values", fkey, exprString(bad.target), bad.how, badField)), props...))
+		} else {
+			out = append(out, withProps(okOb("PARAMMUT", key, c.Rel(fd.Pos()), "no write site reaches the storage of the parameters the receiver holds", true), props...))
+		}
+	})
+	c.Stats["parammut_methods"] = n
+	return out
+}
+
+func init() {
+	core.Register(&core.Rule{Name: "PARAMMUT", Wide: true, Props: []string{"C13", "C18", "C10"},
+		Doc: "no method (constructors, decoders, Set*, and the parameter types' own methods excepted) has a write site that reaches, through a pointer, slice or map, storage rooted at a field of its receiver whose type is named …Parameters…",
+		Run: func(c *core.Ctx) []ob {
+			out := scanParamMut(c)
+			for _, o := range core.Floor("PARAMMUT", nil, "methods of objects holding parameters", c.Stats["parammut_methods"], 100) {
+				out = append(out, withProps(o, "C13"))
+			}
+			for _, o := range control(c, "PARAMMUT", scanParamMut, "(fxPolyEval).Scaled") {
+				out = append(out, withProps(o, "C13"))
 			}
 			return out
 		}})
